@@ -217,6 +217,15 @@ func (r *runner) coqWire(m *pb.MeshSilence) string {
 	return vh.Some(vh.App("mkWire", r.coqSil(m.Silence), vh.Z(tsZ(m.ExpiresAt)), vh.ListOf(m.Silence.Matchers, coqMat), vh.List(cms)))
 }
 
+// coqWireRaw: one record of a MarshalBinary payload (type wire)
+func (r *runner) coqWireRaw(m *pb.MeshSilence) string {
+	var cms []string
+	for _, c := range m.Silence.Comments {
+		cms = append(cms, vh.Pair(vh.Str(c.Author), vh.Str(c.Comment)))
+	}
+	return vh.App("mkWire", r.coqSil(m.Silence), vh.Z(tsZ(m.ExpiresAt)), vh.ListOf(m.Silence.Matchers, coqMat), vh.List(cms))
+}
+
 func (r *runner) violate(key, what string) {
 	r.viol = append(r.viol, vh.Violation{Key: key, What: what, Case: r.c})
 }
@@ -530,14 +539,47 @@ func (r *runner) exec(k int) {
 			recs = append(recs, r.pool[p%len(r.pool)].recs...)
 		}
 		r.mergeBytes(ix, encode(recs), recs, now, label)
-	case "sync": // full-state exchange in both directions
+	case "sync": // full-state exchange (push/pull) in both directions through the REAL MarshalBinary
 		for _, d := range [][2]int{{0, 1}, {1, 0}} {
-			b, err := r.in[d[0]].s.MarshalBinary()
+			src, dst := r.in[d[0]], r.in[d[1]]
+			b, err := src.s.MarshalBinary()
 			if err != nil {
 				r.t.Fatal(err)
 			}
 			recs, _ := decodeStream(b)
+			src.hist = append(src.hist, fmt.Sprintf("(%s, XMarshal, XMarshalled %s)", vh.Z(now), vh.ListOf(recs, r.coqWireRaw)))
+			// the full state carries EVERYTHING the sender stores, ended-but-retained silences included
+			got := map[string]string{}
+			for _, m := range recs {
+				got[r.cid(m.Silence.Id)] = r.coqMesh(postprocess(m))
+			}
+			for id, e := range src.ref {
+				if got[id] != r.coqMesh(e) {
+					r.violate("full-state-omits-stored-silence", fmt.Sprintf("%s: MarshalBinary of instance %d lacks (or alters) the stored version of %s (ends %d, expires %d, now %d)", label, d[0], id, tsZ(e.Silence.EndsAt), tsZ(e.ExpiresAt), now))
+				}
+			}
+			want := map[string]*pb.MeshSilence{}
+			for id, e := range src.ref {
+				want[id] = e
+			}
 			r.mergeBytes(d[1], b, recs, now, label)
+			// after the exchange the receiver holds, for every id the sender stores unexpired, a version at least as new
+			for id, e := range want {
+				if tsZ(e.ExpiresAt) < now {
+					continue
+				}
+				have, ok := dst.ref[id]
+				if !ok || tsZ(have.Silence.UpdatedAt) < tsZ(e.Silence.UpdatedAt) {
+					r.violate("full-state-exchange-incomplete", fmt.Sprintf("%s: after push/pull from instance %d the receiver does not hold %s at UpdatedAt >= %d (ends %d: ended-but-retained silences must travel too)", label, d[0], id, tsZ(e.Silence.UpdatedAt), tsZ(e.Silence.EndsAt)))
+				}
+			}
+			r.tags["full-state-exchange"]++
+			for _, e := range want {
+				if tsZ(e.Silence.EndsAt) < now && tsZ(e.ExpiresAt) >= now {
+					r.tags["full-state-with-ended-retained-silence"]++
+					break
+				}
+			}
 		}
 	case "remerge": // own full state back into itself: nothing may change, nothing may be gossiped
 		b, err := i.s.MarshalBinary()
@@ -802,6 +844,37 @@ func genCase(g *vh.Rand, maxSteps int) Case {
 	return c
 }
 
+// lostUpdateCases: the gossip of a single update is lost (an Expire on A, or a silence B never heard of that has
+// ended meanwhile); only the push/pull full-state exchange can repair it, and afterwards both sides agree.
+func lostUpdateCases(g *vh.Rand, n int) []Case {
+	var out []Case
+	for k := 0; k < n; k++ {
+		ret := vh.Pick(g, []int64{int64(time.Hour), int64(5 * time.Minute)})
+		short := vh.Pick(g, []int64{int64(time.Second), 30_000_000_000})
+		vers := []Ver{
+			{ID: "sil-a", Sets: [][]Mat{{{0, "a", "1"}}}, Start: epoch - 60_000_000_000, End: epoch + int64(2*time.Hour), Upd: epoch - 50_000_000_000, Exp: epoch + int64(2*time.Hour) + ret, By: "peer", Comment: "long"},
+			{ID: "sil-b", Sets: [][]Mat{{{1, "a", "1|2"}}}, Start: epoch - 60_000_000_000, End: epoch + short, Upd: epoch - 40_000_000_000, Exp: epoch + short + ret, By: "peer", Comment: "short"},
+			{ID: "sil-c", Sets: [][]Mat{{{0, "b", "2"}}}, Start: epoch - 60_000_000_000, End: epoch + int64(time.Hour), Upd: epoch - 30_000_000_000, Exp: epoch + int64(time.Hour) + ret, By: "peer", Comment: "other"},
+		}
+		a := g.Intn(2)
+		c := Case{Retention: ret, Vers: vers}
+		c.Steps = append(c.Steps, Step{Inst: a, Kind: "merge", Pool: []int{0, 1, 2}}, Step{Inst: 1 - a, Kind: "merge", Pool: []int{0, 2}})
+		if g.Bool() {
+			c.Steps = append(c.Steps, Step{Inst: a, Dt: int64(g.Range(1, 5)) * 1_000_000_000, Kind: "expire", ID: "sil-a"})
+		} else {
+			c.Steps = append(c.Steps, Step{Inst: a, Dt: int64(g.Range(1, 5)) * 1_000_000_000, Kind: "set", ID: "sil-c", Edit: "comment"},
+				Step{Inst: a, Dt: 1, Kind: "expire", ID: "sil-c"})
+		}
+		// time passes: sil-b ends (still within retention); the expiry gossip never reaches the peer
+		c.Steps = append(c.Steps, Step{Inst: 1 - a, Dt: short + vh.Pick(g, []int64{1, int64(time.Minute)}), Kind: "query", Params: []QP{{Kind: "state", States: []string{"active"}}}},
+			Step{Kind: "sync"},
+			Step{Inst: 1 - a, Kind: "query", Params: []QP{{Kind: "state", States: []string{"active"}}}},
+			Step{Inst: a, Kind: "remerge"})
+		out = append(out, c)
+	}
+	return out
+}
+
 // permutations of 0..n-1
 func perms(n int) [][]int {
 	if n == 0 {
@@ -944,6 +1017,10 @@ func TestCheck(t *testing.T) {
 				c := c
 				finish(&c, fmt.Sprintf("all-orders-%d", n))
 			}
+		}
+		for _, c := range lostUpdateCases(g.Fork(), env.N(12, 5)) {
+			c := c
+			finish(&c, "lost-update-repaired-by-full-state")
 		}
 		n := env.N(260, 10)
 		maxSteps := 10
